@@ -711,16 +711,14 @@ func ruleOwnWrap(r *Run, rels []string) {
 						continue
 					}
 					var call *ssa.Call
-					for _, c := range callsIn(fn) {
-						cl, ok := c.(*ssa.Call)
+					cfn := fn // the function the effective call sits in (fn or a helper of it)
+					var via ssa.CallInstruction
+					for _, site := range findFieldMethodSites(fn, m) {
+						cl, ok := site.Call.(*ssa.Call)
 						if !ok {
 							continue
 						}
-						recv, ok := methodCallNamed(cl, m)
-						if !ok {
-							continue
-						}
-						root := resRoot(recv)
+						root := resRoot(site.On)
 						if sliceField[f] {
 							if lu, ok := root.(*ssa.UnOp); ok {
 								if ia, ok := lu.X.(*ssa.IndexAddr); ok {
@@ -728,13 +726,13 @@ func ruleOwnWrap(r *Run, rels []string) {
 								}
 							}
 						}
-						if fname, base, ok := loadOfField(root); ok && fname == f && base == ssa.Value(fn.Params[0]) {
-							call = cl
+						if fname, base, ok := loadOfField(root); ok && fname == f && base == site.Recv {
+							call, cfn, via = cl, site.Fn, site.Via
 						}
 						// an owned aggregate is closed through its address: i.pair.Close()
 						if aggField[f] {
-							if fname, base, ok := fieldNameOf(root); ok && fname == f && base == ssa.Value(fn.Params[0]) {
-								call = cl
+							if fname, base, ok := fieldNameOf(root); ok && fname == f && base == site.Recv {
+								call, cfn, via = cl, site.Fn, site.Via
 							}
 						}
 					}
@@ -746,11 +744,11 @@ func ruleOwnWrap(r *Run, rels []string) {
 					// on every path: the call's block dominates every return, or sits in a whole range loop
 					if sliceField[f] {
 						whole := false
-						for _, l := range rangeIndexLoops(fn) {
+						for _, l := range rangeIndexLoops(cfn) {
 							if !l.Blocks[call.Block()] {
 								continue
 							}
-							if fl, base, ok := loadOfField(l.X); ok && fl == f && base == ssa.Value(fn.Params[0]) && len(l.earlyExits()) == 0 && mustPassThrough(l.Body, l.Header, call.Block()) {
+							if fl, base, ok := loadOfField(l.X); ok && fl == f && (base == ssa.Value(cfn.Params[0]) || cfn != fn) && len(l.earlyExits()) == 0 && mustPassThrough(l.Body, l.Header, call.Block()) {
 								whole = true
 							}
 						}
@@ -760,10 +758,19 @@ func ruleOwnWrap(r *Run, rels []string) {
 						}
 					}
 					if !sliceField[f] {
-						for _, ret := range returnsOf(fn) {
+						for _, ret := range returnsOf(cfn) {
 							if !call.Block().Dominates(ret.Block()) {
 								good = false
 								o.Fail(r.pos(ret.Pos()), "%s() of field %s is skipped on a path to this return", m, f)
+							}
+						}
+					}
+					if via != nil {
+						// the helper runs on every path of the method, and its result is what the method reports
+						for _, ret := range returnsOf(fn) {
+							if !via.Block().Dominates(ret.Block()) {
+								good = false
+								o.Fail(r.pos(ret.Pos()), "the helper that calls %s() is skipped on a path to this return", m)
 							}
 						}
 					}
@@ -809,4 +816,86 @@ func fieldHasMethod(st *types.Struct, field, method string) bool {
 		}
 	}
 	return false
+}
+
+// fieldMethodSite: a place where method m is applied on behalf of a wrapper method: directly in the
+// method, in a same-package helper called on the wrapper, or in such a helper through a function
+// parameter that is bound (at the call in the method) to a function applying m to its argument
+// (a method expression such as logiter.Close, or a closure).
+type fieldMethodSite struct {
+	Call ssa.CallInstruction // applies m (invoke / static method call / call of the bound function parameter)
+	On   ssa.Value           // the value m is applied to
+	Fn   *ssa.Function       // function containing Call
+	Recv ssa.Value           // the wrapper as seen in Fn
+	Via  ssa.CallInstruction // call site in the original method when Fn is a helper
+}
+
+func funcAppliesMethodToParam0(f *ssa.Function, m string) bool {
+	if f == nil || f.Blocks == nil || len(f.Params) == 0 {
+		return false
+	}
+	for _, c := range callsIn(f) {
+		if recv, ok := methodCallNamed(c, m); ok && unspill(recv) == ssa.Value(f.Params[0]) {
+			return true
+		}
+	}
+	return false
+}
+
+func funcValueOf(v ssa.Value) *ssa.Function {
+	switch x := v.(type) {
+	case *ssa.Function:
+		return x
+	case *ssa.MakeClosure:
+		f, _ := x.Fn.(*ssa.Function)
+		return f
+	case *ssa.ChangeType:
+		return funcValueOf(x.X)
+	}
+	return nil
+}
+
+func findFieldMethodSites(orig *ssa.Function, m string) []fieldMethodSite {
+	var out []fieldMethodSite
+	if orig == nil || len(orig.Params) == 0 {
+		return nil
+	}
+	for _, c := range callsIn(orig) {
+		if recv, ok := methodCallNamed(c, m); ok {
+			out = append(out, fieldMethodSite{Call: c, On: recv, Fn: orig, Recv: orig.Params[0]})
+		}
+	}
+	for _, c := range callsIn(orig) {
+		h := staticCallee(c)
+		if h == nil || h.Blocks == nil || h == orig || h.Pkg != orig.Pkg {
+			continue
+		}
+		var recvH ssa.Value
+		for i, a := range c.Common().Args {
+			if i < len(h.Params) && unspill(a) == ssa.Value(orig.Params[0]) {
+				recvH = h.Params[i]
+			}
+		}
+		if recvH == nil {
+			continue
+		}
+		for _, d := range callsIn(h) {
+			if recv, ok := methodCallNamed(d, m); ok {
+				out = append(out, fieldMethodSite{Call: d, On: recv, Fn: h, Recv: recvH, Via: c})
+				continue
+			}
+			prm, ok := d.Common().Value.(*ssa.Parameter)
+			if !ok || d.Common().IsInvoke() || len(d.Common().Args) == 0 {
+				continue
+			}
+			for k, q := range h.Params {
+				if q == prm && k < len(c.Common().Args) {
+					if funcAppliesMethodToParam0(funcValueOf(c.Common().Args[k]), m) {
+						out = append(out, fieldMethodSite{Call: d, On: d.Common().Args[0], Fn: h, Recv: recvH, Via: c})
+					}
+				}
+			}
+		}
+	}
+	return out
 }
